@@ -29,7 +29,7 @@ def main():
         for _ in range(2 if quick else 4):
             seeds.append(pegrun.mutate(rnd, s))
     uniq = pegrun.cheap(seeds, cap, wd)
-    world = pegrun.peg_world(toks, 2 if quick else 3, 1, uniq)
+    world = pegrun.peg_world(toks, 2 if quick else 3, 1, uniq, later=pegrun.LATER)
     res = pegrun.run_peg(chk, "c15", world, shapes=False)
     chk.cov["evaluations"] = res["inputs"]
     chk.cov["distinct_nontrivial"] = res["byacc"].get("yes", 0) + res["byacc"].get("tree+error", 0)
